@@ -75,6 +75,9 @@ def run(chk):
     r_params(chk)
     # R7: the limit each assertion is compared with is the contest's configured one
     aud.ctor_fields(chk, "C09.R7", REL, "Contest", ["risk_limit", "assertions", "n_winners", "winner", "candidates"], "completion compares p-values with con.risk_limit")
+    # R8: "what the configured test returns": the test is run with the bound that belongs to the very data it is given (C06.R3)
+    from . import c06
+    chk.borrow(c06.r3, {"C06.R3": "C09.R8"})
 
 
 # ---------------------------------------------------------------------------
